@@ -98,7 +98,11 @@ class Capture:
                 k = self.rkey(r)
                 if k not in regs:
                     regs[k] = (r, r.color, self.real_of(r, arch) if r.is_colored else None)
-            out.append({'id': id(ins), 'txt': str(ins)[:70], 'uses': [self.rkey(r) for r in u],
+            try:
+                txt = str(ins)[:70]
+            except Exception:   # noqa: BLE001  (some register classes cannot print a coloured virtual register)
+                txt = type(ins).__name__
+            out.append({'id': id(ins), 'txt': txt, 'uses': [self.rkey(r) for r in u],
                         'defs': [self.rkey(r) for r in d], 'clob': [self.rkey(r) for r in c],
                         'move': bool(ins.ismove), 'jumps': [id(j) for j in ins.jumps]})
         return out
@@ -795,7 +799,27 @@ def validate_frames(ctx, frames):
             nontriv += 1
         seen.add(d)
     ctx.cov['distinct_nontrivial'] += nontriv
-    bad = ctx.run_cases('frames', ['Spec.RegAllocSpec', 'Model.RegAllocCheck'], cases, shard=12, timeout=1200)
+    # balance the shards (coqc spends its time parsing the literals): largest first, dealt round-robin
+    nsh = max(1, min(8, len(cases))) if len(cases) <= 160 else (len(cases) + 15) // 16
+    order = sorted(range(len(cases)), key=lambda k: -len(cases[k][0]))
+    chunks = [order[j::nsh] for j in range(nsh)]
+    size = max(len(c) for c in chunks)
+    perm = []
+    for c in chunks:
+        perm += c
+    # run_cases cuts contiguous chunks of `size`; pad short chunks with a trivially true case
+    padded, back = [], []
+    for c in chunks:
+        for k in c:
+            padded.append(cases[k])
+            back.append(k)
+        for _ in range(size - len(c)):
+            padded.append(('true', True))
+            back.append(None)
+    bad = ctx.run_cases('frames', ['Spec.RegAllocSpec', 'Model.RegAllocCheck'], padded, shard=size, timeout=1500)
+    ctx.cov['evaluations'] -= len(padded) - len(cases)
+    if bad is not None:
+        bad = sorted(back[k] for k in bad if back[k] is not None)
     if bad is None:
         return recs, stats_all, None
     # the Python mirror must agree with the Coq validator (harness self-check)
